@@ -127,7 +127,8 @@ const STRINGS: &[&str] = &[
 ];
 const NUMS: &[&str] = &["1", "0", "2", "10", "1.5", "0x10", "1e3"];
 const OTHER_LITS: &[&str] = &["null", "true", "false", "1n", "/re/g", "/a+b/", "undefined"];
-const PROPS: &[&str] = &["p", "q", "k", "length", "name", "prototype"];
+// no `name`: an anonymous function hoisted into a temporary is named after it (the property tolerates the injected names)
+const PROPS: &[&str] = &["p", "q", "k", "length", "nm", "prototype"];
 const GLOBAL_VALS: &[&str] = &["g", "s", "o"];
 
 impl<'t, 'a> Gen<'t, 'a> {
